@@ -133,7 +133,8 @@ harness("C09.columns", jobs, sym, conc)
 # ------------------------------------------------------------------ the same operations on a lazily selected operand (relational)
 def _view_ops():
     return {"sum0": lambda d: (d.sum(axis=0) if d.size else ("empty",)), "col_counts": lambda d: (d.col_counts() if d.size else ("empty",)),
-            "colvals": lambda d: d.get_column_values(0), "mean0": lambda d: (d.mean(axis=0) if d.size else ("empty",))}
+            "colvals": lambda d: d.get_column_values(0), "colvals1": lambda d: (d.get_column_values(1) if len(d) and int(np.max(d.lengths)) > 1 else ("no such column",)),
+            "sum0_sub": lambda d: (d[1:].sum(axis=0) if d[1:].size else ("empty",)), "counts_sub": lambda d: (d[::-1].col_counts() if d.size else ("empty",)), "mean0": lambda d: (d.mean(axis=0) if d.size else ("empty",))}
 
 
 def sym_onview(E, p, kf):
